@@ -466,6 +466,30 @@ def cli_conformance(st, sym):
     else:
         st.validated += 1
     st.outcomes["cli-update"] += 1
+    # the same file patterns given in setup.cfg (where the syntax can express them): same result
+    def ini_ok(raw):
+        return not raw.startswith(("#", ";", " ", "\t")) and not raw.endswith((" ", "\t"))
+
+    ents = [(n, pat_) for n, pat_ in (("f.txt", fpat), ("g.txt", gpat)) if ini_ok(pat_)]
+    if ents:
+        ini = ("[bumpver]\ncurrent_version = 1.2.3\nversion_pattern = MAJOR.MINOR.PATCH\n\n[bumpver:file_patterns]\nsetup.cfg =\n    current_version = {version}\n"
+               + "".join(f"{n} =\n    {pat_}\n" for n, pat_ in ents))
+        world.clear_dir(".")
+        world.write_tree({"setup.cfg": ini.encode(), "f.txt": fbody.encode(), "g.txt": gbody.encode()})
+        o = world.cli("update", "--patch", "--no-fetch")
+        st.evaluations += 1
+        tree = world.read_tree(".")
+        got = {"f.txt": tree.get("f.txt", b"").decode(), "g.txt": tree.get("g.txt", b"").decode()}
+        exp = {"f.txt": fwant if ("f.txt", fpat) in ents else fbody, "g.txt": gwant if ("g.txt", gpat) in ents else gbody}
+        st.observe((sym, "update-ini", o.exit, o.crashed, sorted(got.items())))
+        if o.exit != 0 or got != exp:
+            st.violation(
+                _cli_sig(sym, "pre"), {"syms": [sym], "ctx": "update", "cli": "update", "config": "setup.cfg"},
+                {"kind": "update-setup.cfg", "file_patterns": [e[1] for e in ents], "exit": o.exit, "crashed": o.crashed, "got": got, "expected": exp, "log": o.log[-3:]},
+            )
+        else:
+            st.validated += 1
+        st.outcomes["cli-update-setup.cfg"] += 1
     os.chdir("/")
 
 
